@@ -241,7 +241,9 @@ func ExtractValue(v reflect.Value, extractor ValueExtractor) {
 
 //TypeMapOf type
 func TypeMapOf(typ reflect.Type) map[string]reflect.Type {
-	typMap := make(map[string]reflect.Type)
+	// the walk over a zero value of the type visits every type a value can contain and
+	// registers slice types and custom wire names as well
+	typMap := TypeMapFrom(reflect.New(UnpackPtrType(typ)).Elem().Interface())
 	FetchType(typ, typMap)
 	return typMap
 }
